@@ -351,6 +351,11 @@ def run(acc, prop, V, seed, **kw):
         return
     for p, key, msg, hist in res:
         if p == "*":
+            if prop == "C01":
+                # a bring-up that fails on a clean line is the business of the properties about the layers above
+                # (C09, C12, C13 report it); C01's own workload does not need the application
+                acc.ev("fullstack_bring_up_failed")
+                continue
             acc.violation(f"{prop}/{key}", msg, case, hist)
         elif p == prop:
             acc.violation(key, msg, case, hist)
